@@ -103,6 +103,8 @@ def statusQuotaExhausted : Nat := 1
 
 def onOpenRequest (sv : Server) (user : String) (payload : List UInt8) (now : Int) : OpenOutcome :=
   let r := refused sv user now
-  { accepted := true, refused := r, status := if r then statusQuotaExhausted else 0, readable := payload }
+  -- the quota is evaluated BEFORE the piggy-backed payload is queued for the application
+  -- (repo commit "fix: check user quota before queueing the payload of an open session request")
+  { accepted := true, refused := r, status := if r then statusQuotaExhausted else 0, readable := if r then [] else payload }
 
 end Mieru.Quota
